@@ -1750,10 +1750,10 @@ static void InitFields(void) {
             "CNTLZW", "CNTLZ", (T31 << 26) + (26 << 1),
             M_403 | M_403C | M_505 | M_821 | M_601 | M_6000, False, True);
     AddReg2Swap(
-            "EXTSB ", "EXTSB", (T31 << 26) + (954 << 1),
+            "EXTSB", "EXTSB", (T31 << 26) + (954 << 1),
             M_403 | M_403C | M_505 | M_821 | M_601 | M_6000, False, True);
     AddReg2Swap(
-            "EXTSH ", "EXTS", (T31 << 26) + (922 << 1),
+            "EXTSH", "EXTS", (T31 << 26) + (922 << 1),
             M_403 | M_403C | M_505 | M_821 | M_601 | M_6000, False, True);
 
     /* A,B --> 0 A B */
